@@ -131,7 +131,7 @@ func discharge(o *Obligation, dir string, timeoutS int) {
 	ctx, cancel := context.WithCancel(context.Background())
 	defer cancel()
 	nruns := len(solvers)
-	ch := make(chan solveResult, 2*len(solvers))
+	ch := make(chan solveResult, 3*len(solvers))
 	for _, s := range solvers {
 		go func(s solverSpec) { ch <- runSolver(ctx, s, timeoutS, fname) }(s)
 	}
@@ -155,6 +155,30 @@ func discharge(o *Obligation, dir string, timeoutS int) {
 						r.solver += "+muluf"
 						if r.status == "sat" {
 							r.status = "unknown" // abstraction: a model may be spurious
+						}
+						ch <- r
+					}(s)
+				}
+			}
+		}
+	}
+	if !o.Cover {
+		if nv := mulNormVariant(text); nv != "" {
+			nvFile := strings.TrimSuffix(fname, ".smt2") + ".mulnorm.smt2"
+			if err := os.WriteFile(nvFile, []byte(nv), 0o644); err == nil {
+				for _, s := range solvers[:3] {
+					nruns++
+					go func(s solverSpec) {
+						select {
+						case <-ctx.Done():
+							ch <- solveResult{solver: s.name + "+mulnorm", status: "unknown", out: "not started"}
+							return
+						case <-time.After(2500 * time.Millisecond):
+						}
+						r := runSolver(ctx, s, timeoutS, nvFile)
+						r.solver += "+mulnorm"
+						if r.status == "sat" {
+							r.status = "unknown"
 						}
 						ch <- r
 					}(s)
